@@ -8,7 +8,10 @@ if 'spec' not in rp:
     res['note'] = 'no concrete input recorded (broken obligation): ' + str(rp)[:500]
 else:
     terms = c10.dec_terms(rp['terms'])
-    msg, _ = c10.oracle(rp['spec'], terms, tuple(rp['shape']))
+    if rp.get('edit'):
+        msg = c10.run_edit(rp['edit'])
+    else:
+        msg, _ = c10.oracle(rp['spec'], terms, tuple(rp['shape']))
     if not msg:
         # purity: evaluating must leave every terminal array bit-identical
         terms2 = c10.dec_terms(rp['terms'])
@@ -21,7 +24,7 @@ else:
         msg = msg or 'constants.EPSILON = %r, the documented protection constant is 1e-10' % (c10.c.EPSILON,)
     res.update({'oracle': msg, 'recorded': rp.get('msg'), 'fails': bool(msg)})
     try:
-        res['position'] = c10.build(rp['spec'], terms).position
+        res['position'] = c10.build(rp['spec'], c10.dec_terms(rp['terms'])).position
     except Exception as ex:  # noqa: BLE001
         res['position'] = repr(ex)
 hlib.emit(res)
